@@ -88,7 +88,7 @@ def main(ctx, cases=None):
     quick = ctx.tier == "quick"
     b = build.build("plain")
     tr_ok, classes = pl.regen(ctx, b)
-    proofs_ok = ctx.lean_props("C06") if tr_ok else False
+    proofs_ok = ctx.lean_props("C06All", extra_modules=["Ecpint.Props.C06", "Ecpint.Props.C06b"]) if tr_ok else False
     drv = pl.pair_driver(b)
     if cases is None:
         cases = gen_cases(rng, quick)
